@@ -268,19 +268,36 @@ def target_of(fi, call):
     return "expr"
 
 
+def site_shape(fi, call):
+    """the wrapped expression with every function-local name replaced by `_`: stable under renaming of locals and under
+    re-ordering of branches (a source-order ordinal is neither)"""
+    params = set()
+    f = fi
+    while f is not None:
+        params |= set(f.params)
+        f = f.parent
+    local = {n for n in df.assignments(fi.node) if n not in params}
+    t = ast.parse(ast.unparse(call.args[0]) if call.args else "None", mode="eval").body
+    for n in ast.walk(t):
+        if isinstance(n, ast.Name) and n.id in local:
+            n.id = "_"
+    return ast.unparse(t).replace(" ", "")[:48]
+
+
 def site_ordinal(fi, call, wrapper, idx):
-    """1-based position of this wrapper call among the calls of the same wrapper in the function (source order)"""
+    """<shape>[~n]: n-th (source order) among the calls of the same wrapper with the same shape, omitted when unique"""
+    shape = site_shape(fi, call)
     same = []
     for c in df.calls(fi.node, into_nested=False):
         r = idx.resolve_expr(fi.module, c.func, fi)
-        if r is not None and r.kind == "class" and (r.val.name == wrapper or (wrapper == "SelfAdjoint" and r.val.name == "Hermitian")):
+        if r is not None and r.kind == "class" and (r.val.name == wrapper or (wrapper == "SelfAdjoint" and r.val.name == "Hermitian")) and site_shape(fi, c) == shape:
             same.append(c)
     same.sort(key=lambda c: (c.lineno, c.col_offset))
-    return same.index(call) + 1 if call in same else 0
+    return shape if len(same) <= 1 else f"{shape}~{same.index(call) + 1 if call in same else 0}"
 
 
 def check_site(idx, rep, res, ortho, fi, call, wrapper):
-    construct = f"{role(fi)}:{wrapper}#{site_ordinal(fi, call, wrapper, idx)}"
+    construct = f"{role(fi)}:{wrapper}:{site_ordinal(fi, call, wrapper, idx)}"
     loc = idx.loc(fi.module, call)
     env = {}
     rule = getattr(fi, "rule", None)
